@@ -136,7 +136,7 @@ def unknown(why):
 
 def has_unknown(x):
     if is_term(x):
-        if x[0] in ("unknown", "pend", "listpend", "carried"):
+        if x[0] in ("unknown", "pend", "listpend", "carried", "appended"):
             return True
         return any(has_unknown(y) for y in x[1:])
     if isinstance(x, (tuple, list)):
@@ -255,6 +255,8 @@ def shape(t):
         return (iter_len(t[1]),) + (tuple(sb) if isinstance(sb, tuple) else ())
     if tag == "cat":
         return (t[3],)
+    if tag in ("sorted", "uniq"):
+        return shape(t[1]) if tag == "sorted" else ShapeOf(t)
     return ShapeOf(t)
 
 
@@ -304,6 +306,8 @@ def dtype(t):
         return dtype(t[2]) if is_term(t[2]) else ("int" if isinstance(t[2], Poly) else None)
     if tag == "cat":
         return dtype(t[2])
+    if tag in ("sorted", "uniq"):
+        return dtype(t[1])
     if tag == "ite":
         return dtype(t[2])
     if tag == "hint":
@@ -631,6 +635,20 @@ def ge0(x):
     return ("ge0", x)
 
 
+def uniq(x):
+    """sorted unique values"""
+    y = x[1] if x[0] == "sorted" else x
+    if y[0] == "sel" and y[1][0] == "iota":
+        return y
+    # the ids of all positions addressed by a loop of index expressions = the ids selected by the mask those positions set
+    if y[0] == "cat" and is_term(y[2]):
+        piece = unravel(y[2])
+        if piece[0] == "index" and piece[1][0] == "iota" and len(piece[1][1]) > 1:
+            mask = ("forstores", const(False, piece[1][1]), y[1], ((piece[2], True),))
+            return sel(piece[1], mask)
+    return ("uniq", y)
+
+
 def where_(m, a, b):
     """np.where(m, a, b) for the bookkeeping idioms that have a meaning in this algebra"""
     # rank of every True entry among the True entries:  where(m, cumsum(m) - 1, c)  ==  full(c) with arange(count(m)) scattered at m
@@ -762,6 +780,7 @@ class LoopCtx:
         self.var, self.it, self.depth = var, itdesc, depth
         self.pre = {}       # carried scalar name -> (pre atom name, initial value)
         self.inc = {}
+        self.carried_init = {}      # carried array name -> value before the loop
 
 
 class Interp:
@@ -1030,6 +1049,7 @@ class Interp:
                 env[n] = Cell(atom(pre))
             elif n in env and not isinstance(env[n].v, (Obj, Func, Ext)):
                 # re-bound in the body: a read before the re-binding would see the previous iteration's value
+                lc.carried_init[n] = env[n].v
                 env[n] = Cell(("carried", n))
         self.assign(st.target, val, env, scope, None)
         self.loops.append(lc)
@@ -1091,6 +1111,15 @@ class Interp:
                         and shape(x)[0] == iter_len(lc.it):
                     blk = elem(x, atom(lc.var))
                     return ("tab", y[1], self._ite_val(c, y[2], blk) if flip else self._ite_val(c, blk, y[2]))
+            # a path that leaves a freshly allocated array alone while the other path fills its slice: the slice keeps the fill value
+            for (x, y, x_when_c) in ((a, b, True), (b, a, False)):
+                if y[0] == "cat" and x[0] == "const" and len(x[2]) == 1 and x[2][0] == y[3] and is_term(y[2]) and rank(y[2]) == 1:
+                    w = length(y[2])
+                    if _skip_is_empty(c if x_when_c else c_not(c), w):
+                        return y                     # the skipped slices are empty: nothing is skipped
+                    keep = const(x[1], (w,))
+                    blk = self._ite_val(c, keep, y[2]) if x_when_c else self._ite_val(c, y[2], keep)
+                    return ("cat", y[1], blk, y[3])
             return unknown("array updated on some paths of a loop body only")
         if isinstance(a, Poly) and isinstance(b, Poly):
             return a if a == b else atom(f"unknown(conditional increment in loop over {show(lc.it)})")
@@ -1122,6 +1151,15 @@ class Interp:
         for key, cell in self._cells(env).items():
             if is_term(cell.v) and cell.v[0] == "pend" and cell.v[1] == lc.var:
                 cell.v = self._finalize_pend(cell.v, lc)
+            elif is_term(cell.v) and cell.v[0] == "appended" and cell.v[1] in lc.carried_init:
+                init = lc.carried_init[cell.v[1]]
+                piece = cell.v[2]
+                if is_term(init) and isinstance(shape(init), tuple) and len(shape(init)) == 1 and shape(init)[0] == P(0) and is_term(piece):
+                    # acc = np.append(acc, piece) starting from an empty array: the concatenation of the pieces in loop order
+                    v = ravel(piece)
+                    cell.v = ("cat", lc.it, v, sum_over(lc.it, size(piece), lc.var))
+                else:
+                    cell.v = unknown("array grown by np.append from a non-empty start")
             elif is_term(cell.v) and cell.v[0] == "listpend" and cell.v[1] == lc.var:
                 _, _var, base, items = cell.v
                 if len(base) == 0 and len(items) == 1:
@@ -1595,7 +1633,28 @@ class Interp:
             p = as_poly(args[0])
             return ("iota", (p,)) if p is not None else unknown("arange")
         if n in ("array", "asarray", "copy", "ascontiguousarray"):
+            if isinstance(args[0], Tup) and len(args[0]) == 0:
+                return const(0, (P(0),))
             return args[0]
+        if n == "append" and len(args) == 2 and not kw:
+            a0 = args[0]
+            if is_term(a0) and a0[0] == "carried" and self.loops and is_term(args[1]):
+                return ("appended", a0[1], args[1])
+            return unknown("np.append outside the accumulate-in-a-loop idiom")
+        if n == "sort" and len(args) == 1 and is_term(args[0]) and not kw:
+            a0 = args[0]
+            if a0[0] == "sel" and a0[1][0] == "iota":
+                return a0                       # ids selected by a mask are already increasing
+            if a0[0] in ("sorted", "uniq"):
+                return a0
+            return ("sorted", a0)
+        if n == "unique" and len(args) == 1 and is_term(args[0]) and not kw:
+            return uniq(args[0])
+        if n == "prod" and len(args) == 1 and isinstance(args[0], Tup) and all(as_poly(x) is not None for x in args[0]):
+            out = P(1)
+            for x in args[0]:
+                out = out * as_poly(x)
+            return out
         if n in ("logical_not", "invert", "bitwise_not") and args and is_term(args[0]):
             return not_(args[0])
         if n == "logical_and" and len(args) == 2 and all(is_term(a) for a in args):
@@ -1678,6 +1737,24 @@ class Interp:
         if n == "num_nodes" or n == "print":
             return unknown(n)
         return unknown(f"external function {name}")
+
+
+def _skip_is_empty(c, width):
+    """does condition c imply that a slice of this width is empty?  (n == 0 / n <= 0 / not n for a count n with width = n or n*n)"""
+    if c is None or not is_term(c):
+        return False
+    if c[0] == "cand":
+        return _skip_is_empty(c[1], width) or _skip_is_empty(c[2], width)
+    n = None
+    if c[0] == "cmp" and c[1] in ("Eq", "LtE") and isinstance(c[2], Poly) and isinstance(c[3], Poly) and c[3] == P(0):
+        n = c[2]
+    if c[0] == "cmp" and c[1] in ("Eq", "GtE") and isinstance(c[2], Poly) and isinstance(c[3], Poly) and c[2] == P(0):
+        n = c[3]
+    if c[0] == "cnot" and c[1][0] == "cmp" and c[1][1] == "!=" and isinstance(c[1][2], Poly):
+        n = c[1][2]
+    if c[0] == "cmp" and c[1] == "Lt" and isinstance(c[2], Poly) and isinstance(c[3], Poly) and c[3] == P(1):
+        n = c[2]
+    return n is not None and isinstance(width, Poly) and (width == n or width == n * n)
 
 
 def _same_index(a, b):
